@@ -65,7 +65,20 @@ func zzFailedCanaryStore() (*fakeapi.Client, *datadoghqv1alpha1.ExtendedDaemonSe
 	ds.Status.Canary = &datadoghqv1alpha1.ExtendedDaemonSetStatusCanary{ReplicaSet: "foo-b", Nodes: []string{"node1"}}
 	c := fakeapi.New()
 	c.EDS = append(c.EDS, ds)
-	c.ERS = append(c.ERS, rsA, rsB)
+	// a third replica set — an older version that still reports a pod, so it is not collected yet — may be
+	// listed before the others or after them: it plays no part in the rollback
+	switch nondet.String("olderReplicaSet", "none", "listed-first", "listed-last") {
+	case "listed-first":
+		rsOld := zzRS(ds, "C", "foo-0old", nondet.Base().Add(-48*time.Hour))
+		rsOld.Status.Desired, rsOld.Status.Current, rsOld.Status.Ready, rsOld.Status.Available = 0, 1, 1, 1
+		c.ERS = append(c.ERS, rsOld, rsA, rsB)
+	case "listed-last":
+		rsOld := zzRS(ds, "C", "foo-zold", nondet.Base().Add(-48*time.Hour))
+		rsOld.Status.Desired, rsOld.Status.Current, rsOld.Status.Ready, rsOld.Status.Available = 0, 1, 1, 1
+		c.ERS = append(c.ERS, rsA, rsB, rsOld)
+	default:
+		c.ERS = append(c.ERS, rsA, rsB)
+	}
 	return c, ds
 }
 
